@@ -203,6 +203,18 @@ def job_angles(tier):
             rs, m, dt = solver.check(fs, 10000)
             res.add_raw("angles/path%d/%s congruent mod 2pi" % (pi_, name), "holds" if rs == "unsat" else "undecided", "z3 with atan2 range/negation axioms (%s)" % rs, dt)
     res.axioms.add("atan2 quadrant/range axioms; atan2(-y,-x) = atan2(y,x) -+ pi; the literal M_PI is identified with pi up to 1e-12")
+    # SUPPLEMENTARY: layer R identifies -0.0 with +0.0, but atan2 does not.  The eight signed-zero axis elements are a finite set: replay them natively.
+    for qz, qw in [(0.0, 1.0), (-0.0, 1.0), (0.0, -1.0), (-0.0, -1.0), (1.0, 0.0), (1.0, -0.0), (-1.0, 0.0), (-1.0, -0.0)]:
+        out = h.native("rel_angles", [qz, qw], 3)
+        for name in ("angle>=-pi", "angle<=pi", "cw<=0", "cw>=-2pi", "ccw>=0", "ccw<=2pi"):
+            if violates(name, out):
+                key = "angles/signed-zero/" + name
+                res.add_raw("angles/signed-zero(%r,%r)/%s" % (qz, qw, name), "violated", "native replay of the signed-zero axis elements")
+                if not any(v["key"] == key for v in res.violations):
+                    res.violations.append({"key": key, "what": "SO2 element (qz,qw)=(%r,%r): angle()=%r angle_cw()=%r angle_ccw()=%r violates %s" % (qz, qw, out[0], out[1], out[2], name),
+                                           "replay": {"property": PID, "key": key, "tu_name": h.name, "tu_text": h.text, "fn": "rel_angles", "inputs": [qz, qw], "nout": 3, "native": out,
+                                                      "obligation": name, "lhs": str(out), "rhs": "range", "err": 1.0, "tol": 1e-12}})
+    res.notes.append("angles: supplementary native replay of the 8 signed-zero axis elements (exhaustive over that finite set)")
     return res
 
 
